@@ -24,10 +24,21 @@ def simulate(case):
         c = w.c
         if case.get("disc_raises"):
             c.raise_on_disconnect = True  # the application's on_disconnect callback fails
+        if case.get("pre_tr"):
+            # the application calls the public send_test_req() while there is no connection: refused
+            r0 = w.call(c.send_test_req())
+            if r0[0] != "exc":
+                return {"harness": "send_test_req without a connection was not refused"}
         w.connect()
-        w.logon(hb=hb)
-        if c.connection_state.name != "ACTIVE":
-            return {"harness": "no active session"}
+        if case.get("logon_gap"):
+            w.logon(hb=hb, seq=3)  # the peer's Logon is numbered above the expected number, then the peer goes silent
+            w.peer_seq = 4
+            if c.connection_state.value <= 3:
+                return {"harness": "no session"}
+        else:
+            w.logon(hb=hb)
+            if c.connection_state.name != "ACTIVE":
+                return {"harness": "no active session"}
         w.take()
         # phase: shift peer grid relative to the endpoint's tick grid
         base = CLOCK.now + case["phase"] * Q
@@ -52,7 +63,7 @@ def simulate(case):
                 elif t == "2":
                     # the peer fills whatever the endpoint asks for with a GapFill up to its next number
                     b = int(d.get("7", "1"))
-                    if w.reader is not None and c.connection_state.value > 3 and b < w.peer_seq:
+                    if w.reader is not None and c.connection_state.value > 3 and b < w.peer_seq and not case.get("logon_gap"):
                         w.feed(refs.frame("4", b, w.T, w.S, [(123, "Y"), (36, w.peer_seq)], extra_header=[(43, "Y")]))
                     tl["other"].append((k, "2"))
                 elif t == "0":
@@ -174,6 +185,10 @@ def judge(case, tl):
         V("livelock", f"hb{hb}", "the timer task goes quiescent between ticks")
         return out
     hbclass = "hb1" if hb == 1 else ("hb2" if hb == 2 else "hb_ge3")
+    if case.get("pre_tr"):
+        hbclass += ":after_refused_send_test_req"
+    if case.get("logon_gap"):
+        hbclass += ":after_logon_with_gap"
     arr = sorted(set(tl["arrivals"]))
     disc = tl["disc"]
     end = disc if disc is not None else H
@@ -212,7 +227,7 @@ def judge(case, tl):
         lim_tr = L + hq + int(2 / Q)
         if silent_until > lim_tr and (disc is None or disc > lim_tr):
             had_open = any(k <= L and not (rid in ans_times and ans_times[rid] <= L) for k, rid in tl["tr"])
-            if not had_open and not any(L <= k <= lim_tr for k in trs):
+            if not had_open and not any(L <= k <= lim_tr for k in trs) and not case.get("logon_gap"):
                 V("no_testrequest_after_silence", hbclass, "when nothing has been received for about one heartbeat interval the connection sends a TestRequest", silent_from=L, limit=lim_tr)
                 break
         lim_dc = L + 3 * hq + int(3 / Q)
@@ -313,6 +328,13 @@ def scripted_cases(quick):
                                 cases.append(mk(arrivals={at: ["tr"]}, answer=("right", d)))
                     # burst then silence
                     cases.append(mk(arrivals={1: ["app", "hb", "app"], 2: ["hb"]}))
+                    if order == "timers":
+                        # the application tried send_test_req() before there was a connection; then a live peer
+                        hor = 12 * hq if hb < 30 else 5 * hq
+                        cases.append(mk(pre_tr=True, arrivals={k: ["hb"] for k in range(2, hor + 1, max(1, min(4, hq - 4)))}))
+                        cases.append(mk(pre_tr=True, answer=("right", 0)))
+                        # the peer's Logon reveals a gap, then the peer is dead: no session state may hide it from the watchdog
+                        cases.append(mk(logon_gap=True))
                     # inbound test requests
                     cases.append(mk(arrivals={2: ["tr"], hq: ["tr"], hq + 1: ["tr", "tr"]}, answer=("right", 0)))
     return cases
